@@ -1,91 +1,86 @@
-#!/usr/bin/env python
-"""
-C19 demo 1: with two Node instances in one component tree a remote event is
-sent (and executed on the peer) twice.
+"""C19 demo 1: an event object that is sent to a peer a second time is not waited for.
 
-Node.__peers is a class attribute (one dict shared by all Node instances) and
-Node.__on_remote listens on channel '*', so EVERY Node instance in the tree
-handles EVERY `remote` event and finds the connection name in the shared dict.
+Protocol.send() waits until the event object has the attribute `remote_finish`.
+The attribute is set on the event when the first reply arrives and is never
+removed, so a second send of the same event object (to the same or to another
+peer) "finishes" at once: the waiting handler is resumed with the STALE result
+of the first call, before the peer has even executed the second one, and the
+real reply is thrown away when it arrives (its id is no longer in flight).
 """
+import socket
 import sys
 import time
 
-from circuits import Component, Event, Manager, handler
+from circuits import Component, Event
 from circuits.node import Node, remote
 
 
-class hello(Event):
-    """the event that is executed remotely"""
+def freeport():
+    s = socket.socket()
+    s.bind(('127.0.0.1', 0))
+    p = s.getsockname()[1]
+    s.close()
+    return p
 
 
 class PeerApp(Component):
-    """lives on the peer: counts how often hello is executed"""
+    def init(self):
+        self.calls = []
 
-    channel = 'first'
-    executed = 0
-
-    def hello(self, text):
-        self.executed += 1
-        return 'hello #%d (%s)' % (self.executed, text)
+    def double(self, n):
+        self.calls.append(n)
+        return n * 2
 
 
-class Caller(Component):
-    """lives on the sending side: one handler waits for the remote result"""
+class App(Component):
+    def init(self):
+        self.results = []
 
-    channel = 'first'
-    result = None
-
-    @handler('go')
-    def _on_go(self):
-        value = yield self.call(remote(hello('world'), 'peer_x'))
-        self.result = value.value
+    def go(self, ev):
+        x = yield self.call(remote(ev, 'peer'))
+        self.results.append(x.value)
 
 
-def spin(managers, n, cond=None):
-    for _ in range(n):
-        for m in managers:
-            m._running = True
-            m.tick(0)
+def pump(ms, cond=None, t=5.0):
+    end = time.time() + t
+    while time.time() < end:
+        for m in ms:
+            m.tick(0.01)
         if cond is not None and cond():
             return True
-        time.sleep(0.005)
     return False
 
 
-def main():
-    # the peer: a node server and the application
-    peer = Manager()
-    peer_node = Node(port=0, server_ip='127.0.0.1').register(peer)
-    app = PeerApp().register(peer)
-    spin([peer], 5)
-    port = peer_node.server.port
+port = freeport()
+peer = PeerApp()
+pnode = Node(port=port, server_ip='127.0.0.1').register(peer)
+app = App()
+node = Node().register(app)
+node.add('peer', '127.0.0.1', port, reconnect_delay=0)
+ms = [peer, app]
+for m in ms:
+    m._running = True
+assert pump(ms, lambda: len(pnode.server.get_socks()) == 1), 'could not connect over loopback'
+pump(ms, t=0.2)
 
-    # the local process: two independent Node instances (different channels),
-    # as e.g. tests/node/test_server.py also registers several Nodes with one
-    # manager.  Only `first` knows the connection 'peer_x'.
-    local = Manager()
-    first = Node(channel='first').register(local)
-    second = Node(channel='second').register(local)  # has no connections at all
-    caller = Caller().register(local)
-    first.add('peer_x', '127.0.0.1', port)
-    spin([peer, local], 40)
+ev = Event.create('double', 1)
+app.fire(Event.create('go', ev))
+assert pump(ms, lambda: len(app.results) == 1), 'first call got no answer'
+print('first  call: double(1) -> result at the waiting handler: %r, peer executed %r' % (app.results[0], peer.calls))
 
-    print('connections known to first :', first.get_connection_names())
-    print('connections known to second:', second.get_connection_names(), '(never added any)')
+# the same event object again (only the argument differs, to tell the answers apart)
+ev.args[0] = 21
+app.fire(Event.create('go', ev))
+pump(ms, lambda: len(app.results) == 2, t=3)
+executed_when_resumed = list(peer.calls)
+pump(ms, t=0.5)
+got = app.results[1] if len(app.results) > 1 else '<nothing>'
+print('second call: double(21) -> result at the waiting handler: %r (expected 42)' % (got,))
+print('             peer had executed %r when the handler was resumed, %r in the end' % (executed_when_resumed, peer.calls))
 
-    local.fire(Event.create('go'), 'first')
-    spin([peer, local], 400, lambda: caller.result is not None)
-    spin([peer, local], 40)
-
-    print('hello executed on the peer  :', app.executed, 'time(s)')
-    print('result seen by the caller   :', repr(caller.result))
-
-    if app.executed != 1:
-        print('VIOLATION: one remote(hello) was executed %d times on the peer' % app.executed)
-        return 1
-    print('ok: executed exactly once')
-    return 0
-
-
-if __name__ == '__main__':
-    sys.exit(main())
+if got != 42:
+    print('VIOLATION: the waiting handler of the second call received the stale result of the first call; '
+          'the real result (42) of the second execution never reached it')
+    sys.exit(1)
+print('ok: the second call was waited for and got its own result')
+sys.exit(0)
